@@ -18,7 +18,7 @@ func init() {
 	register(&Property{
 		ID:          "C08",
 		Engines:     []string{"cfg"},
-		Explanation: "HTTP parser robustness, structural part: every call of a parse entry point tests the returned error and its failure edge closes the connection or leaves the read loop into the closing defer (O1); the carry-buffer append is unreachable without passing the read-limit test, and the body reader's accounting and allocations without passing the body-size test on len(data)+left (O2); every ParseInt/Atoi failure in the parser reaches a non-nil error return, the stored lengths are dominated by the <0 and >MaxInt rejections, chunked is set only for exactly one Transfer-Encoding value equal to chunked (O3); every declared parser state has a case in Parse's state switch (O4); in the ten CR/LF states the only alternatives are the expected byte or a non-nil error return (O5); Parse and the data handlers defer a recover() frame, Parse's also releases the mutex (O6); error returns in the parse loop are not preceded by a processor callback after the detecting comparison and stateClose short-circuits at entry (O7). The transition relation read off Parse equals the frozen grammar table (O8).",
+		Explanation: "HTTP parser robustness, structural part: every call of a parse entry point tests the returned error and its failure edge closes the connection or leaves the read loop into the closing defer (O1); the carry-buffer append is unreachable without passing the read-limit test, and the body reader's accounting and allocations without passing the body-size test on len(data)+left (O2); every ParseInt/Atoi failure in the parser reaches a non-nil error return, the stored lengths are dominated by the <0 and >MaxInt rejections, chunked is set only for exactly one Transfer-Encoding value equal to chunked (O3); every declared parser state has a case in Parse's state switch (O4); in the ten CR/LF states the only alternatives are the expected byte or a non-nil error return (O5); Parse and the data handlers defer a recover() frame, Parse's also releases the mutex (O6); error returns in the parse loop are not preceded by a processor callback after the detecting comparison and stateClose short-circuits at entry (O7). The transition relation read off Parse equals the frozen grammar table (O8). Chunk-size line grammar on all 256 bytes (O10); Content-Length digits only, repeats agree, empty refused (O11); an error is final (O12).",
 		NotCovered:  "absence of panics as such (index safety of the state machine is value-level; only containment is decided), termination/progress of the loop index, allocator traffic",
 		Run:         runC08,
 	})
